@@ -528,3 +528,34 @@ def check_c07_structure(ctx, sess, out):
             elif li == 0 and len(live) > W and len(expanded) < W:
                 vs.append(V("C07/fewer-than-width-expanded", where, out))
     return vs
+
+
+# ----------------------------------------------------------------------------- R-audit (tie detector)
+def same_key_tie(doc, matcher, rel=1e-12):
+    """R-audit: is there a lattice entry for which a candidate through one of its recorded losing
+    predecessors (`prev_other`) is exactly as probable as the winner?  `BaseMatching.update` keeps the
+    candidate that arrived first, so this is the only place where the listing order (arrival order)
+    decides between equally probable alternatives.  Used only as a tie detector, never as an oracle."""
+    model = Model(doc["cfg"], bool(doc["world"].get("latlon")))
+    lat = matcher.lattice or {}
+    for col in lat.values():
+        for layer in col.o:
+            for e in layer.values():
+                if e.stop or not e.prev_other:
+                    continue
+                for p in e.prev_other:
+                    if p in e.prev or p.stop:
+                        continue
+                    try:
+                        pr = rec_from_entry(p)
+                        pr.lp, pr.lpe, pr.lpne, pr.length = p.logprob, p.logprobe, p.logprobne, p.length
+                        pr.d_o, pr.d_s = getattr(p, "d_o", 0.0), getattr(p, "d_s", 0.0)
+                        pp = next(iter(p.prev), None)
+                        ppr = rec_from_entry(pp) if pp is not None else None
+                        er = rec_from_entry(e)
+                        model.score_next(ppr, pr, er)
+                    except Exception:
+                        continue
+                    if close(er.lp, e.logprob, rel, rel):
+                        return True
+    return False
